@@ -7,6 +7,7 @@ use crate::marker::StaticOrDynamic;
 use crate::regex_radix_tree::{Trace as TreeTrace, UniqueRegexTreeMap};
 #[cfg(feature = "dot")]
 use dot_graph::{Edge, Graph, Node};
+use std::cell::Cell;
 use std::collections::{HashMap, HashSet};
 use std::sync::Arc;
 
@@ -81,10 +82,19 @@ impl<T> HostMatcher<T> {
             !matcher.is_empty()
         });
 
+        let removed_in_regex = Cell::new(None);
+
         self.regex_tree_rule.retain(&|_, matcher| {
-            matcher.remove(id);
+            if let Some(value) = matcher.remove(id) {
+                removed_in_regex.set(Some(value));
+            }
+
             !matcher.is_empty()
         });
+
+        if removed.is_none() {
+            removed = removed_in_regex.into_inner();
+        }
 
         if removed.is_some() {
             self.count -= 1;
